@@ -270,6 +270,15 @@ def c15_2(ctx: Ctx) -> RuleResult:
           and contains(ht[1][1], lambda s_: s_[0] == "attr" and s_[2] == hattr and s_[1][0] == "param") and ht[2] == (("param", f.qualname, ev),))
     res.add(f, hc, "every registered handler of this plan receives the event exactly once (one call inside one loop over the registry)", ok,
             "" if ok else f"handler delivery is `{show(ht, 100)}`", construct="emit_event: handlers loop")
+    # ... the registry as it is now: a copy made in this call is fine, a snapshot kept on the plan between events is not
+    # (handlers added after the first event would never be served)
+    if ok:
+        selfp = ("param", f.qualname, f.positional[0])
+        stale = sorted({s_[2] for s_ in subterms(ht[1][1]) if s_[0] == "attr" and s_[1] == selfp and s_[2] != hattr})
+        ok2 = not stale
+        res.add(f, hc, "the loop reads the handler registry itself (or a copy taken in this call), never a snapshot stored on the plan by an earlier event", ok2,
+                "" if ok2 else f"the handlers are taken from `self.{stale[0]}`, which outlives the call: a handler registered after the first event is stored by add_handler (in `self.{hattr}`) but never receives an event",
+                construct="emit_event: live registry")
     # no nested loop / repeated call
     hn = cfg.node_containing(hc)
     loops = 0
